@@ -19,6 +19,8 @@ type SlotContent struct {
 	// Scope is the slot scope that was in effect where the content was written
 	// (the includer's), used when the content itself contains <slot> elements.
 	Scope *SlotScope
+	// Env holds the includer's variables at the place where the content was written.
+	Env map[string]any
 }
 
 // SlotScope holds all slot contents indexed by name for a component instance.
@@ -78,6 +80,17 @@ func (v *Vue) evalSlot(ctx VueContext, node *html.Node, slotScope *SlotScope) ([
 		if slotContent := slotScope.GetSlot(slotName); slotContent != nil {
 			// Found explicit slot content - evaluate it with the scoped props
 			result := []*html.Node{}
+
+			// The content is the includer's: its variables shadow the component's own
+			// (props, front-matter, loop variables) while the content is evaluated
+			if slotContent.Env != nil {
+				scope := make(map[string]any, len(slotContent.Env))
+				for k, v := range slotContent.Env {
+					scope[k] = v
+				}
+				ctx.stack.Push(scope)
+				defer ctx.stack.Pop()
+			}
 
 			// If the slot content is a template with v-slot, evaluate it with the props
 			if slotContent.TemplateNode != nil {
